@@ -17,7 +17,7 @@ def floatRejectsNaN : Bool := true
 
 /-- the `if / elif` chain of `coerce_int`, in source order: (what is tested, what the branch does). `bool` is a subclass of
     `int`, so a JSON boolean takes the first branch. -/
-def coerceIntBranches : List (String × String) := [("int", "identity"), ("float", "int-if-equal-guarded"), ("None", "raise"), ("str", "int10-else-integral-float"), ("else", "raise")]
+def coerceIntBranches : List (String × String) := [("int", "int()"), ("float", "int-if-equal-guarded"), ("None", "raise"), ("str", "int10-else-integral-float"), ("else", "raise")]
 
 /-- `coerce_float`: the `try` around `float(x)` turns OverflowError (an int too large for a double) into ValueError -/
 def floatCatchesOverflow : Bool := true
